@@ -30,5 +30,7 @@ def run(ctx, rep):
     rep.run(RG.rule_recursion_fanout, ctx, rep, "Z4")
     rep.run(RG.rule_recursive_alternative_last, ctx, rep, "Z5")
     rep.run(RF.rule_render_once_per_child, ctx, rep, "Z6")
+    rep.run(RF.rule_no_reparse_in_actions, ctx, rep, "Z7")
+    rep.run(RF.rule_no_superlinear_regex, ctx, rep, "Z8")
     rep.require_min("Z3", 10)
     rep.run(RF.rule_locals_defined, ctx, rep, "U1", packages=("gtwrap/interface_parser",), min_functions=3)
